@@ -316,6 +316,16 @@ def run(ctx):
             r3.check(v[0], inst, v[1], v[2], v[3])
     r3.expect_min(3)
     r4 = rep.rule('C06.4-message-read-side', 'R-TABLE', 'substdio_get/substdio_feed under blast(): a read error is -1 (never end of file), a short read is moved to the end of the buffer intact (byte_copyr on overlapping regions), so the encoder sees exactly the bytes of the queue file')
+    # "a conforming receiver - including this package's own server - reconstructs exactly the lines": the receiving decoder (C05 rule 1)
+    from rules import C05 as _c05
+    dsites_, _, _ = _c05.decoder_sites(db, rep)
+    for inst_, v_ in sorted(dsites_.items()):
+        r4.check(v_[0], 'own-server:' + inst_, v_[1], v_[2], v_[3])
+    # message content goes on the wire only after the server accepted DATA: the client's action per DATA reply class (C09 rule 1)
+    from rules import C09 as _c09
+    for inst_, v_ in sorted(_c09.smtp_verdict_explore(db, rep).sites.items()):
+        if inst_.startswith('verdict:data') or inst_ in ('blast-only-after-DATA-accepted', 'DATA-needs-an-accepted-recipient', 'one-action-per-reply'):
+            r4.check(v_[0], 'client:' + inst_, v_[1], v_[2], v_[3])
     from rules import libtab
     for f_ in (libtab.substdio_read_sites, libtab.byte_copyr_sites):
         for inst, v in sorted(f_(db, rep, prog).items()):
